@@ -79,6 +79,7 @@ type genModel struct {
 	// bind: parameters of a writing helper bound to the arguments of the call site under analysis
 	bind      map[*ssa.Parameter]ssa.Value
 	listDepth int
+	strDepth  int
 }
 
 // deref replaces a bound parameter by the caller's argument.
@@ -137,6 +138,38 @@ func (g *genModel) strExpr(v ssa.Value) ([]strPart, error) {
 		// a field of a descriptor struct handed to the writing helper by value
 		if fv, ok := g.structFieldValue(v.X, v.Field, 0); ok {
 			return g.strExpr(fv)
+		}
+	case *ssa.Call:
+		// a string-valued helper with one return (a descriptor's path()): what it returns, with its parameters
+		// bound to this call's arguments
+		if h := v.Call.StaticCallee(); h != nil && g.p.InModule(h) && len(h.Blocks) > 0 && g.strDepth < 4 && h.Signature.Results().Len() == 1 {
+			var rets []ssa.Value
+			for _, b := range h.Blocks {
+				if ret, ok := b.Instrs[len(b.Instrs)-1].(*ssa.Return); ok && len(ret.Results) == 1 {
+					rets = append(rets, ret.Results[0])
+				}
+			}
+			if len(rets) == 1 {
+				if g.bind == nil {
+					g.bind = map[*ssa.Parameter]ssa.Value{}
+				}
+				var added []*ssa.Parameter
+				for i, prm := range h.Params {
+					if i < len(v.Call.Args) {
+						if _, had := g.bind[prm]; !had {
+							g.bind[prm] = v.Call.Args[i]
+							added = append(added, prm)
+						}
+					}
+				}
+				g.strDepth++
+				ps, err := g.strExpr(rets[0])
+				g.strDepth--
+				for _, prm := range added {
+					delete(g.bind, prm)
+				}
+				return ps, err
+			}
 		}
 	case *ssa.Phi:
 		// range over value (for _, id := range ids) may appear as a load; other phis are not supported
@@ -1617,6 +1650,144 @@ func (g *genModel) decodedFrom(doc *ssa.Alloc) (string, error) {
 	return file, nil
 }
 
+// tableRowField: v reads field f of the current row of a full range over a local literal table of structs
+// (for _, row := range []struct{…}{{a, b}, {c, d}} { use(row.f) }); returns, row by row, the value the
+// literal puts into that field.
+func tableRowField(v ssa.Value) ([]ssa.Value, bool) {
+	ld, ok := v.(*ssa.UnOp)
+	if !ok || ld.Op != token.MUL {
+		return nil, false
+	}
+	fa, ok := ld.X.(*ssa.FieldAddr)
+	if !ok {
+		return nil, false
+	}
+	// the row: the element itself, or a per-iteration copy of it
+	var ia *ssa.IndexAddr
+	switch b := fa.X.(type) {
+	case *ssa.IndexAddr:
+		ia = b
+	case *ssa.Alloc:
+		var src ssa.Value
+		n := 0
+		for _, r := range *b.Referrers() {
+			switch r := r.(type) {
+			case *ssa.Store:
+				if r.Addr != ssa.Value(b) {
+					return nil, false
+				}
+				src = r.Val
+				n++
+			case *ssa.FieldAddr:
+				for _, rr := range *r.Referrers() {
+					if st, ok := rr.(*ssa.Store); ok && st.Addr == ssa.Value(r) {
+						return nil, false // the copy is modified
+					}
+				}
+			}
+		}
+		if n != 1 {
+			return nil, false
+		}
+		el, ok := src.(*ssa.UnOp)
+		if !ok || el.Op != token.MUL {
+			return nil, false
+		}
+		ia, _ = el.X.(*ssa.IndexAddr)
+	}
+	if ia == nil {
+		return nil, false
+	}
+	sl, ok := ia.X.(*ssa.Slice)
+	if !ok || sl.Low != nil || sl.High != nil || sl.Max != nil {
+		return nil, false
+	}
+	arr, ok := sl.X.(*ssa.Alloc)
+	if !ok {
+		return nil, false
+	}
+	at, ok := arr.Type().Underlying().(*types.Pointer).Elem().Underlying().(*types.Array)
+	if !ok {
+		return nil, false
+	}
+	if _, ok := at.Elem().Underlying().(*types.Struct); !ok {
+		return nil, false
+	}
+	if isRangeIndexOf(ia.Index, sl) != nil {
+		return nil, false
+	}
+	out := make([]ssa.Value, at.Len())
+	for _, r := range *arr.Referrers() {
+		ea, ok := r.(*ssa.IndexAddr)
+		if !ok {
+			if _, isSl := r.(*ssa.Slice); isSl {
+				continue
+			}
+			if _, isDbg := r.(*ssa.DebugRef); isDbg {
+				continue
+			}
+			return nil, false
+		}
+		kc, ok := ea.Index.(*ssa.Const)
+		if !ok || kc.Value == nil {
+			return nil, false
+		}
+		k := int(kc.Int64())
+		if k < 0 || k >= len(out) {
+			return nil, false
+		}
+		for _, rr := range *ea.Referrers() {
+			switch x := rr.(type) {
+			case *ssa.Store:
+				// the row stored as a whole from a literal, or field by field
+				if x.Addr != ssa.Value(ea) {
+					return nil, false
+				}
+				rl, ok := x.Val.(*ssa.UnOp)
+				if !ok || rl.Op != token.MUL {
+					return nil, false
+				}
+				lit, ok := rl.X.(*ssa.Alloc)
+				if !ok {
+					return nil, false
+				}
+				for _, lr := range *lit.Referrers() {
+					lfa, ok := lr.(*ssa.FieldAddr)
+					if !ok || lfa.Field != fa.Field {
+						continue
+					}
+					for _, lrr := range *lfa.Referrers() {
+						if st, ok := lrr.(*ssa.Store); ok && st.Addr == ssa.Value(lfa) {
+							if out[k] != nil {
+								return nil, false
+							}
+							out[k] = st.Val
+						}
+					}
+				}
+			case *ssa.FieldAddr:
+				if x.Field != fa.Field {
+					continue
+				}
+				for _, lrr := range *x.Referrers() {
+					if st, ok := lrr.(*ssa.Store); ok && st.Addr == ssa.Value(x) {
+						if out[k] != nil {
+							return nil, false
+						}
+						out[k] = st.Val
+					}
+				}
+			}
+		}
+	}
+	for _, v := range out {
+		if v == nil {
+			return nil, false
+		}
+	}
+	return out, true
+}
+
 // openedName: v is the file os.Open returned for a constant name — directly, as a bound parameter, or as
 // the result of an opening helper (whose failure paths are skipped).
 func (g *genModel) openedName(v ssa.Value, d int) (string, error) {
@@ -1717,14 +1888,35 @@ func extractGenerator(p *Prog) ([]genArtefact, []string, error) {
 							for _, cb := range caller.Blocks {
 								for _, cin := range cb.Instrs {
 									if cc, ok := cin.(*ssa.Call); ok && cc.Call.StaticCallee() == fn {
-										m := map[*ssa.Parameter]ssa.Value{}
-										for i, prm := range fn.Params {
+										// a call in a loop over a literal table of (descriptor, ids) rows stands for one call
+										// per row: arguments that are fields of the current row are bound row by row
+										rows := 1
+										alts := make([][]ssa.Value, len(fn.Params))
+										for i := range fn.Params {
 											if i < len(cc.Call.Args) {
-												m[prm] = cc.Call.Args[i]
+												if a, ok := tableRowField(cc.Call.Args[i]); ok {
+													alts[i] = a
+													if len(a) > rows {
+														rows = len(a)
+													}
+												}
 											}
 										}
-										binds = append(binds, m)
-										sitePos = append(sitePos, cc.Pos())
+										for k := 0; k < rows; k++ {
+											m := map[*ssa.Parameter]ssa.Value{}
+											for i, prm := range fn.Params {
+												if i >= len(cc.Call.Args) {
+													continue
+												}
+												if alts[i] != nil && k < len(alts[i]) {
+													m[prm] = alts[i][k]
+												} else {
+													m[prm] = cc.Call.Args[i]
+												}
+											}
+											binds = append(binds, m)
+											sitePos = append(sitePos, cc.Pos())
+										}
 									}
 								}
 							}
@@ -1738,8 +1930,19 @@ func extractGenerator(p *Prog) ([]genArtefact, []string, error) {
 						g.bind = bnd
 						path, ok := constString(g.deref(c.Call.Args[0]))
 						if !ok {
-							if sps, err := g.strExpr(c.Call.Args[0]); err == nil && len(sps) == 1 && sps[0].Elem == nil {
-								path, ok = sps[0].Const, true
+							if sps, err := g.strExpr(c.Call.Args[0]); err == nil && len(sps) > 0 {
+								// a path put together from constants (a directory constant + a descriptor's file name)
+								all := true
+								joined := ""
+								for _, sp := range sps {
+									if sp.Elem != nil {
+										all = false
+									}
+									joined += sp.Const
+								}
+								if all {
+									path, ok = joined, true
+								}
 							}
 						}
 						if !ok {
